@@ -1,11 +1,12 @@
 #!/bin/sh
-# Development aid: refresh /tmp/verif-snap (a copy of the committed /verif pointing at /tmp/repo-try, a scratch worktree of /repo)
+# LANE (optional suffix) selects an independent snapshot/worktree pair so that two trial lanes can run side by side
+# Development aid: refresh /tmp/verif-snap$LANE (a copy of the committed /verif pointing at /tmp/repo-try$LANE, a scratch worktree of /repo)
 # so that seeded changes can be tried while /verif and /repo are being worked on. Final "which check catches which change"
 # results are produced the prescribed way (git -C /repo apply ... checkout).
-[ -d /tmp/repo-try ] || git -C /repo worktree add -q /tmp/repo-try HEAD
-git -C /tmp/repo-try checkout -q --detach "$(git -C /repo rev-parse HEAD)"
-mkdir -p /tmp/verif-snap
-rsync -a --delete --exclude target --exclude replays --exclude .git --exclude evidence --exclude scratch /verif/ /tmp/verif-snap/
-mkdir -p /tmp/verif-snap/evidence
-sed -i 's#path = "/repo"#path = "/tmp/repo-try"#' /tmp/verif-snap/worker/Cargo.toml /tmp/verif-snap/delta-harness/Cargo.toml
+[ -d /tmp/repo-try$LANE ] || git -C /repo worktree add -q /tmp/repo-try$LANE HEAD
+git -C /tmp/repo-try$LANE checkout -q --detach "$(git -C /repo rev-parse HEAD)"
+mkdir -p /tmp/verif-snap$LANE
+rsync -a --delete --exclude target --exclude replays --exclude .git --exclude evidence --exclude scratch /verif/ /tmp/verif-snap$LANE/
+mkdir -p /tmp/verif-snap$LANE/evidence
+sed -i "s#path = \"/repo\"#path = \"/tmp/repo-try$LANE\"#" /tmp/verif-snap$LANE/worker/Cargo.toml /tmp/verif-snap$LANE/delta-harness/Cargo.toml
 echo "snapshot at $(git -C /verif rev-parse --short HEAD) / repo $(git -C /repo rev-parse --short HEAD)"
